@@ -164,6 +164,20 @@ fn replay(path: &str) -> ! {
             let o = run_case(&x);
             println!("round {r}: run(\"{}\") -> {} allocation calls", show(&x), o.allocs);
             bad[r] = o.allocs != 0;
+        } else if w["engine"] == "run-lexi16" {
+            let x = unhex(w["input"].as_str().unwrap());
+            let mut m = mc::ifaces::Lexi;
+            let mut wr: heapless::Vec<u8, 16> = heapless::Vec::new();
+            let o = run_on(&mut m, &x, &mut wr, Pattern::NONE);
+            println!("round {r}: run(\"{}\") on Lexi with heapless::Vec<u8,16> -> {} allocation calls", show(&x), o.allocs);
+            bad[r] = o.allocs != 0;
+        } else if w["engine"] == "run8" {
+            let x = unhex(w["input"].as_str().unwrap());
+            let mut m = Main;
+            let mut wr: heapless::Vec<u8, 8> = heapless::Vec::new();
+            let o = run_on(&mut m, &x, &mut wr, Pattern::NONE);
+            println!("round {r}: run(\"{}\") with heapless::Vec<u8,8> -> {} allocation calls", show(&x), o.allocs);
+            bad[r] = o.allocs != 0;
         } else if w["engine"] == "run-lexi" {
             let x = unhex(w["input"].as_str().unwrap());
             let mut m = mc::ifaces::Lexi;
@@ -256,6 +270,34 @@ fn main() {
         skipped += w.skipped_panics;
     }
 
+    // lexeme strings on the Lexi tree (long / short mnemonics, optional node)
+    {
+        struct LexiA {
+            groups: Groups,
+            execs: u64,
+        }
+        impl Visitor for LexiA {
+            fn visit(&mut self, x: &[u8], _n: usize, _l: usize) {
+                let mut m = mc::ifaces::Lexi;
+                let mut w: heapless::Vec<u8, 16> = heapless::Vec::new();
+                let o = run_on(&mut m, x, &mut w, Pattern::NONE);
+                self.execs += 1;
+                if o.end == End::Returned && o.allocs != 0 {
+                    let f = vec![("engine", "run-long-mnemonics".to_string())];
+                    self.groups.add("no-allocation", &f, (x.len(), x), || {
+                        (json!({"engine": "run-lexi16", "input": hex(x)}), format!("run(\"{}\") on the Lexi interface: {} heap allocation calls", show(x), o.allocs))
+                    });
+                }
+            }
+        }
+        let ll = if thorough { 5 } else { 4 };
+        let ws = lex::sweep(lex::SIGMA_LEXEME, ll, args.threads, args.seed, || LexiA { groups: Groups::new(), execs: 0 }, |_, _, _| {}, 600, |_, _| {});
+        for w in ws {
+            out.groups.merge(w.groups);
+            lex_execs += w.execs;
+        }
+    }
+
     // process: streams of <=k pool messages, N in {16, 64}, all chunkings with <=2 cuts
     let k = if thorough { 3 } else { 2 };
     let mut streams: Vec<Vec<u8>> = vec![];
@@ -320,7 +362,7 @@ fn main() {
             if o.end == End::Returned && o.allocs != 0 {
                 let f = vec![("engine", "run-many-parameters".to_string())];
                 out.groups.add("no-allocation", &f, (x.len(), x), || {
-                    (json!({"engine": "run", "input": hex(x)}), format!("run(\"{}\"): {} heap allocation calls", show(x), o.allocs))
+                    (json!({"engine": "run8", "input": hex(x)}), format!("run(\"{}\") with heapless::Vec<u8,8>: {} heap allocation calls", show(x), o.allocs))
                 });
             }
         }
